@@ -13,14 +13,14 @@ LEVEL = "exploration"
 RULE = (
     "A valid macro rule from the C13 factoring generator (>= 1 definition, in the file and/or extra macro files) receives one fault (kind drawn first): a reference to a "
     "fresh undefined @name inserted as list item, as operand, as $deref field value, as dict key with a times body, as dict key with an operand body, under $or / $not, or "
-    "inside the body of a macro that is listed before / after another macro; a used definition deleted; a used definition moved to an extra file that is not passed; a "
+    "inside the body of a macro that is listed before / after another macro, or spliced into a longer mnemonic/operand name (names include non-identifiers such as @64bit_, @8_); a reference to a macro that IS defined but is applied before its user (listed earlier, or from an extra file) - reported or expanded, never kept; a used definition deleted; a used definition moved to an extra file that is not passed; a "
     "macro renamed so that its name lacks '@'. Control group: no fault. Oracle: faulted rule => Yaml2Regex(...).produce_regex() raises and the message names the "
     "reference (for the no-@ case: raises); control => compiles and the regex contains no '@'. Non-trivial: distinct (fault kind, definition placement) cells; distinct by canonical hash."
 )
 ASSUMPTIONS = ["names and operand vocabularies are @-free by construction, so an '@' in the regex can only come from an unexpanded reference"]
-FAULTS = ["control", "control", "item", "operand", "deref-value", "key-times", "key-operands", "under-or", "under-not", "in-body-first", "in-body-last", "delete-def", "unpassed-file", "no-at-name", "alias-to-undefined", "shared-lib-second-rule"]
+FAULTS = ["control", "control", "item", "operand", "deref-value", "key-times", "key-operands", "under-or", "under-not", "in-body-first", "in-body-last", "delete-def", "unpassed-file", "no-at-name", "alias-to-undefined", "shared-lib-second-rule", "in-name", "defined-but-applied-earlier"]
 FLOORS = {f"fault={f}": 0.03 for f in set(FAULTS)}
-UNDEF = ["@zz_", "@undefined_", "@nope_"]
+UNDEF = ["@zz_", "@undefined_", "@nope_", "@64bit_", "@8_", "@2nd-op_", "@Q.x_"]  # also names that are not identifiers
 
 
 def budget(tier):
@@ -79,6 +79,19 @@ def cases(draw):
             c.insert(draw(st.integers(0, len(c))), draw(st.sampled_from(["@alias_", {"mov": ["@alias_"]}])))
     elif fault == "shared-lib-second-rule":
         pass  # built in evaluate: the faulted rule is compiled after a valid rule that shares its extra macro file
+    elif fault == "in-name":
+        # the undefined reference is spliced into a longer mnemonic / operand name (substitution inside names is a supported use)
+        where = draw(st.sampled_from(["mnemonic", "operand", "mnemonic-with-operands", "key-times"]))
+        c, i = draw(st.sampled_from(items))
+        node = {"mnemonic": "x" + u, "operand": {"mov": ["%" + u]}, "mnemonic-with-operands": {"re" + u: ["rax"]}, "key-times": {"no" + u: {"times": 2}}}[where]
+        c.insert(draw(st.integers(0, len(c))), node)
+    elif fault == "defined-but-applied-earlier":
+        # @yearly_ HAS a definition, but it is applied before the macro whose body mentions it (listed earlier, or supplied by an
+        # extra macro file while its user is in the rule file): the reference must be reported or expanded, never survive
+        body_kind = draw(st.sampled_from(["item", "operand", "key-times"]))
+        body = {"item": {"$and": ["push", "@yearly_"]}, "operand": {"mov": ["rax", "@yearly_"]}, "key-times": {"$and": [{"@yearly_": {"times": 2}}, "ret"]}}[body_kind]
+        factored.append("@yuser_")
+        expect_name = "@yearly_"
     elif fault == "delete-def":
         k = draw(st.integers(0, len(macros) - 1))
         expect_name = macros[k]["name"]
@@ -96,6 +109,15 @@ def cases(draw):
             macros = [dict(m, pattern=_rename(m["pattern"], old, new)) for m in macros]
         expect_name = None
     in_file, files = split_definitions(draw, macros)
+    if fault == "defined-but-applied-earlier":
+        mb, mu = {"name": "@yearly_", "pattern": "pop"}, {"name": "@yuser_", "pattern": [body]}
+        if draw(st.booleans()):
+            pos = draw(st.integers(0, len(in_file)))
+            in_file = in_file[:pos] + [mb] + in_file[pos:]
+            in_file.insert(draw(st.integers(pos + 1, len(in_file))), mu)
+        else:
+            files = files + [[mb]] if draw(st.booleans()) else [[mb]] + files
+            in_file.insert(draw(st.integers(0, len(in_file))), mu)
     dropped = None
     if fault == "unpassed-file":
         if files:
@@ -157,6 +179,12 @@ def evaluate(case):
         elif "@" in r[1]:
             ev.dev("at-sign-survives-in-regex", regex=r[1][:500])
         return ev
+    if fault == "defined-but-applied-earlier":
+        if r[0] == "ok" and "@" in r[1]:
+            ev.dev("reference-survives-in-regex", fault=fault, expected_report_or_expansion=case["expect_name"], regex=r[1][:400])
+        elif r[0] != "ok" and case["expect_name"] not in r[2]:
+            ev.dev("error-does-not-name-the-reference", fault=fault, expected=case["expect_name"], error=list(r[1:]))
+        return ev
     if r[0] == "ok":
         ev.dev("unresolved-reference-compiled-silently", fault=fault, expected_report=case["expect_name"] or case["dropped"], regex=r[1][:400], survives="@" in r[1])
         return ev
@@ -164,18 +192,6 @@ def evaluate(case):
     if case["expect_name"] is not None and fault != "delete-def":
         if case["expect_name"] not in msg:
             ev.dev("error-does-not-name-the-reference", fault=fault, expected=case["expect_name"], error=list(r[1:]))
-    elif fault == "alias-to-undefined":
-        # a string macro whose replacement text is (or contains) a reference that has no definition
-        body = draw(st.sampled_from([u, "%" + u, "x" + u]))
-        macros = macros + [{"name": "@alias_", "pattern": body}] if draw(st.booleans()) else [{"name": "@alias_", "pattern": body}] + macros
-        if opers and draw(st.booleans()):
-            c, i = draw(st.sampled_from(opers))
-            c.insert(draw(st.integers(0, len(c))), "@alias_")
-        else:
-            c, i = draw(st.sampled_from(items))
-            c.insert(draw(st.integers(0, len(c))), draw(st.sampled_from(["@alias_", {"mov": ["@alias_"]}])))
-    elif fault == "shared-lib-second-rule":
-        pass  # built in evaluate: the faulted rule is compiled after a valid rule that shares its extra macro file
     elif fault == "delete-def":
         # the deleted macro may have been used only inside another deleted-free body or not at all after nesting; it was used at creation time, so it must be named
         if case["expect_name"] not in msg:
